@@ -59,6 +59,17 @@ fn has_non_global_surrounding_splits(txs: &[Tx], idx: usize) -> bool {
 pub fn replace_global_security_splits(
     sorted_security_txs: &mut Vec<Tx>,
 ) -> Result<(), SError> {
+    replace_global_security_splits_with_holders(sorted_security_txs, &[])
+}
+
+/// Same as replace_global_security_splits, but `extra_holders` are treated as
+/// affiliates of the security even if they have no Tx of their own. This is for
+/// affiliates which hold shares through an initial status (--symbol-base), which
+/// a global split must apply to as well.
+pub fn replace_global_security_splits_with_holders(
+    sorted_security_txs: &mut Vec<Tx>,
+    extra_holders: &[Affiliate],
+) -> Result<(), SError> {
     // First find all global splits and validate them
     let mut split_indices = Vec::new();
 
@@ -85,6 +96,11 @@ pub fn replace_global_security_splits(
     // Get all affiliates we need to create splits for
     let mut non_global_affiliates: Vec<_> =
         find_all_non_global_affiliates(sorted_security_txs).into_iter().collect();
+    for holder in extra_holders {
+        if !non_global_affiliates.contains(holder) {
+            non_global_affiliates.push(holder.clone());
+        }
+    }
     // Sort for a deterministic order of the expanded splits.
     non_global_affiliates.sort_by(|a, b| a.id().cmp(b.id()));
 
